@@ -48,16 +48,26 @@ type svcLog struct {
 }
 
 type service struct {
-	logs   []*svcLog
-	keys   *wit.WitKeys
-	mux    *stubs.HostMux
-	dbPath string
-	ln     net.Listener
-	cancel context.CancelFunc
-	done   chan error
-	addr   string
-	yaml   []byte
-	db     *sql.DB // the service's own handle (durable services), observed through Stats only
+	logs            []*svcLog
+	keys            *wit.WitKeys
+	mux             *stubs.HostMux
+	dbPath          string
+	ln              net.Listener
+	cancel          context.CancelFunc
+	done            chan error
+	addr            string
+	yaml            []byte
+	db              *sql.DB // the service's own handle (durable services), observed through Stats only
+	noClientTimeout bool
+}
+
+// client is the HTTP client handed to Main: with an overall timeout for most services, without one for the
+// services that meet a hung tile request (there only the feeder's own per-cycle deadline can end the request).
+func (s *service) client() *http.Client {
+	if s.noClientTimeout {
+		return &http.Client{Transport: s.mux}
+	}
+	return &http.Client{Transport: s.mux, Timeout: 5 * time.Second}
 }
 
 func (s *service) persistence() (persistence.LogStatePersistence, func()) {
@@ -95,7 +105,7 @@ func (s *service) start(mem persistence.LogStatePersistence) (func(), error) {
 			WitnessKeys:     s.keys.Signers,
 			WitnessVerifier: s.keys.Signers[len(s.keys.Signers)-1].(interface{ Verifier() note.Verifier }).Verifier(),
 			FeedInterval:    500 * time.Millisecond, // also the deadline of each feed cycle: generous, so a loaded machine does not time cycles out
-		}, p, ln, &http.Client{Transport: s.mux, Timeout: 5 * time.Second})
+		}, p, ln, s.client())
 	}()
 	ok := false
 	for i := 0; i < 500 && !ok; i++ {
@@ -172,6 +182,7 @@ func main() {
 	run.Floor("growth_steps", 60)
 	run.Floor("restarts", 2)
 	run.Floor("db_lock_episodes", 1)
+	run.Floor("hung_tile_episodes", 1)
 	run.Floor("services_with_five_forked_logs", 1)
 	run.Floor("fork_observations", 2)
 	run.Floor("feeder:sumdb", 10)
@@ -190,6 +201,7 @@ func oneService(run *ev.Run, unit int64, r *rand.Rand, dir string) {
 	if durable {
 		s.dbPath = filepath.Join(dir, fmt.Sprintf("omni-%d.db", unit))
 	}
+	s.noClientTimeout = unit%4 == 1
 	nlogs := 2 + r.IntN(3)
 	nforks := 1
 	if unit%4 == 3 {
@@ -373,6 +385,22 @@ func oneService(run *ev.Run, unit int64, r *rand.Rand, dir string) {
 			}
 		}
 		okSoFar = converge("growth")
+		if okSoFar && s.noClientTimeout && i == 6 {
+			// every log accepts one tile request and never answers it; the feeder's cycle deadline must end
+			// that request, and the next cycles must catch up
+			// (tiles-feeder logs only: the SumDB client takes no context - a hung SumDB request is bounded by the
+			// operator's http.Client timeout alone, which cmd/omniwitness always sets; see DESIGN observation O3)
+			for _, l := range s.logs {
+				l.size += 300 + uint64(r.IntN(300))
+				if !l.stub.SumDB {
+					l.stub.HangTile(1 + r.IntN(5)) // which of the cycle's tile requests hangs differs per log
+				}
+				l.stub.Publish(nil, l.size)
+			}
+			run.Count("hung_tile_episodes")
+			trace = append(trace, "every log grew; the tiles-feeder logs left their next tile request hanging")
+			okSoFar = converge("after_hung_tile_request")
+		}
 		// durable services restart twice on their file; in-memory services restart once on the same
 		// persistence object (Init is documented as idempotent: what was witnessed must still be there)
 		if okSoFar && ((durable && (i == 3 || i == 7)) || (!durable && i == 5)) {
